@@ -106,6 +106,7 @@ def plan(tier, seed):
         {"kind": "accessors", "depth": depth},
         {"kind": "refs", "depth": 1 if tier == "quick" else 2},
         {"kind": "reject"},
+        {"kind": "suite"},
     ] + [{"kind": "online", "n": 25 if tier == "quick" else 300, "shard": i} for i in range(4 if tier == "quick" else 16)]
 
 
@@ -140,6 +141,10 @@ def check_pair(PackURI, P, Q, acc, stats):
 def run_unit(unit, tier, seed, acc):
     from pptx.opc.packuri import PackURI
 
+    if unit.get("kind") == "suite":  # the repository's own tests as one more workload for this property's monitor
+        from vlib import suite
+
+        return suite.run_suite_unit(ID, acc)
     kind = unit["kind"]
     if kind == "online":
         from vlib import histories
@@ -266,6 +271,11 @@ def run_unit(unit, tier, seed, acc):
 
 def replay(w, acc):
     from pptx.opc.packuri import PackURI
+
+    if "suite_test" in w:
+        from vlib import suite
+
+        return suite.replay_suite(w, acc, ID)
 
     if "Q" in w:
         check_pair(PackURI, w["P"], w["Q"], acc, {"with_up": 0, "with_sub": 0})
